@@ -1,7 +1,7 @@
 --------------------------- MODULE MC_Variants ---------------------------
 EXTENDS Variants, Json
 CONSTANTS MaxVariants, EmitCases, AllowNamed
-VARIABLES vs, generic
+VARIABLES vs, generic, forms
 
 Kinds == {[k |-> "unit", tys |-> <<>>], [k |-> "tuple", tys |-> <<"A">>], [k |-> "tuple", tys |-> <<"B">>],
           [k |-> "tuple", tys |-> <<"A", "B">>], [k |-> "tuple", tys |-> <<"B", "A">>]}
@@ -15,21 +15,21 @@ FKinds == {[k |-> "tuple", tys |-> <<"A", "B">>, fign |-> <<TRUE, FALSE>>],
            [k |-> "tuple", tys |-> <<"B", "A", "A">>, fign |-> <<TRUE, TRUE, FALSE>>]}
           \cup (IF AllowNamed THEN {[k |-> "named", tys |-> <<"A", "A">>, fign |-> <<TRUE, FALSE>>]} ELSE {})
 NoFign(n) == [j \in 1..n |-> FALSE]
-Init == vs = <<>> /\ generic \in BOOLEAN
+Init == vs = <<>> /\ generic \in BOOLEAN /\ forms \in FormSets \cup {{}}
 Add == /\ Len(vs) < MaxVariants
        /\ \/ \E kd \in Kinds, ig \in BOOLEAN :
                 vs' = Append(vs, [k |-> kd.k, tys |-> kd.tys, ign |-> ig, fign |-> NoFign(Len(kd.tys))])
           \/ \E kd \in FKinds : vs' = Append(vs, [k |-> kd.k, tys |-> kd.tys, ign |-> FALSE, fign |-> kd.fign])
-       /\ UNCHANGED generic
+       /\ UNCHANGED <<generic, forms>>
 Next == Add
-Spec == Init /\ [][Next]_<<vs, generic>>
+Spec == Init /\ [][Next]_<<vs, generic, forms>>
 
 P_C11_Partition    == Partition(vs)
 P_C11_TryIntoExact == TryIntoExact(vs)
 IsTable == [a \in 1..Len(vs) |-> [x \in 1..Len(vs) |-> DocIs(vs, a, x)]]
 Targets == TargetTypes(vs)
 Emit == EmitCases /\ Live(vs) # {} =>
-    PrintT(<<"CASE", ToJson([vs |-> vs, generic |-> generic, targets |-> Targets,
+    PrintT(<<"CASE", ToJson([vs |-> vs, generic |-> generic, formsAttr |-> forms, forms |-> DocForms(forms), targets |-> Targets,
                              is |-> IsTable,
                              unwrap |-> [a \in 1..Len(vs) |-> [x \in 1..Len(vs) |-> DocUnwrap(vs, a, x)[1]]],
                              liveIdx |-> [a \in 1..Len(vs) |-> LiveIdx(vs[a])],
